@@ -234,6 +234,12 @@ impl StoreTransaction {
                 .build();
             self.delete(COLUMN_BLOCK_BODY, key.as_slice())?;
         }
+        // the read caches must not keep answering for a block that is gone
+        self.cache.headers.lock().pop(&hash);
+        self.cache.block_proposals.lock().pop(&hash);
+        self.cache.block_tx_hashes.lock().pop(&hash);
+        self.cache.block_uncles.lock().pop(&hash);
+        self.cache.block_extensions.lock().pop(&hash);
         Ok(())
     }
 
